@@ -179,7 +179,7 @@ func c06(r *rep.Run) {
 		tokLen, chLen = 6, 7
 		r.SetBudget(2400e9)
 	}
-	r.Rule = "every token sequence up to the length bound over a 22-token alphabet (parens, brackets, comma, ints, string, registered/unregistered identifiers, builtin/custom operators, !-forms, keywords, comments, valid and bogus directives) and every character string up to the bound over 17 characters (incl. non-ASCII letter and U+00A0), each under {prefix,infix} x {undefined variables off,on}; every truncation / single-token deletion / duplication / adjacent swap of every valid corpus program; scaled shapes. For every text that compiles: Dump, DumpTable(both), Eval, TryEval(all cached / nothing cached) under bindings of every supported type incl. lists and nil, in all three event modes; oracle = no panic, exactly one of (program,error), LOOP positions strictly increasing. non-trivial = texts that compile"
+	r.Rule = "every token sequence up to the length bound over a 22-token alphabet (parens, brackets, comma, ints, string, registered/unregistered identifiers, builtin/custom operators, !-forms, keywords, comments, valid and bogus directives) and every character string up to the bound over 18 characters (incl. 2- and 3-byte letters and U+00A0), each under {prefix,infix} x {undefined variables off,on}; every truncation / single-token deletion / duplication / adjacent swap of every valid corpus program; scaled shapes. For every text that compiles: Dump, DumpTable(both), Eval, TryEval(all cached / nothing cached) under bindings of every supported type incl. lists and nil, in all three event modes; oracle = no panic, exactly one of (program,error), LOOP positions strictly increasing. non-trivial = texts that compile"
 	r.Assume = []string{"fetchers and operators supplied by the harness are well behaved (total, deterministic)",
 		"hangs are detected by the watchdog (no progress on one input for 180 s), never by a short wall-clock bound"}
 	r.Cov["bounds"] = map[string]int{"token_seq_len": tokLen, "char_string_len": chLen}
